@@ -119,12 +119,17 @@ Definition val_of (F : list (Z * list nat)) (i : nat) : Z := fst (nth i F (0, []
 Definition keep_interval (dim_max : nat) (x : interval) : bool :=
   let '(d, b, e) := x in
   (d <=? dim_max)%nat && match e with Some z => negb (z =? b) | None => true end.
-(* None = a face is missing (cannot happen for a flag complex) or the certificate of the reduction failed *)
+(* run-time check that the order is a filtration order: every face has a smaller index than its coface *)
+Definition faces_precede (cols : list (list (nat * Z))) : bool :=
+  forallb (fun jc => forallb (fun rc => (fst rc <? fst jc)%nat) (snd jc)) (combine (seq 0 (length cols)) cols).
+(* None = a face is missing or does not precede its coface (cannot happen for a flag complex ordered by diameter) or the
+   certificate of the reduction failed *)
 Definition barcode (p : Z) (M : dmatrix) (T : option Z) (n dim_max : nat) : option (list interval) :=
   let F := filtration M T n dim_max in
   match boundary_matrix F with
   | None => None
   | Some cols =>
+    if negb (faces_precede cols) then None else
     match certified_lows p (dense_of_sparse (length F) cols) with
     | None => None
     | Some l =>
